@@ -4,9 +4,9 @@ CONSTANTS
   MaxCrashes = 3
   NC = 2
   CrashOdds = 4
-  F8Fixed = FALSE
+  F8Fixed = TRUE
   F9Fixed = FALSE
-  FccFixed = FALSE
+  FccFixed = TRUE
   CommitBeforeCheckpoint = TRUE
   EnvAtomic = TRUE
 INVARIANTS Dump
